@@ -1,5 +1,5 @@
 (* Proofs for C03: decoder-of-encoder for Create/Update QER, URR, BAR; bit-rate split; order-freeness; periodic
-   registration; refutations (BAR delay, registration after Update URR).  Statements re-exported by props/C03.v. *)
+   registration; refutation (registration after Update URR).  Statements re-exported by props/C03.v. *)
 From Coq Require Import List NArith Bool Lia Permutation PeanoNat.
 From Coq Require String.
 From GoUpf Require Import Bytes Nlattr PfcpIe3 RulesGen ConstsGen FlagsGen RulesSpec RulesSpec3 RulesPdrFar RulesQerUrrBar
@@ -45,7 +45,7 @@ Example shape_UpdateURR_as_modelled : shape_UpdateURR =
 Proof. reflexivity. Qed.
 Definition bar_shape : list (string * list string * list string * list string * list string * bool) :=
   [("BARID", [], [], ["return"], [], false);
-   ("DownlinkDataNotificationDelay", ["BAR_DOWNLINK_DATA_NOTIFICATION_DELAY"], ["AttrU8(v)"], ["return"], [], false);
+   ("DownlinkDataNotificationDelay", ["BAR_DOWNLINK_DATA_NOTIFICATION_DELAY"], ["AttrU8(v/(50*time.Millisecond))"], ["return"], [], false);
    ("SuggestedBufferingPacketsCount", ["BAR_BUFFERING_PACKETS_COUNT"], ["AttrU16(v)"], ["return"], [], false)].
 Example shape_CreateBAR_as_modelled : shape_CreateBAR = bar_shape.
 Proof. reflexivity. Qed.
@@ -459,7 +459,7 @@ Qed.
 (* ------------------------------------------------------------------ BAR *)
 Definition bar_out (i : qie) : list attr :=
   match i with
-  | QDelay ns => [A nl_BAR_DOWNLINK_DATA_NOTIFICATION_DELAY (V8 ns)]
+  | QDelay ns => [A nl_BAR_DOWNLINK_DATA_NOTIFICATION_DELAY (V8 (ns / 50000000))]
   | QCount v => [A nl_BAR_BUFFERING_PACKETS_COUNT (V16 v)]
   | _ => []
   end.
@@ -475,20 +475,22 @@ Proof.
       reflexivity.
 Qed.
 
-(* what is decoded for the delay is the Duration's low octet *)
 Lemma dec_bar_part ies : forall d, all_lt 256 (selq h_count ies) = true ->
+  forallb (fun ns => (ns mod 50000000 =? 0) && (ns / 50000000 <? 256)) (selq h_delay ies) = true ->
   ofold dec_bar_step (flat_map bar_out ies) d =
   Some {| b_link := b_link d; b_id := b_id d; b_seid := b_seid d;
-          b_delay := lastor (b_delay d) (map (fun ns => ns mod 256) (selq h_delay ies));
+          b_delay := lastor (b_delay d) (map (fun ns => ns / 50000000) (selq h_delay ies));
           b_count := lastor (b_count d) (selq h_count ies) |}.
 Proof.
   unfold all_lt.
-  induction ies as [|x ies IH]; intros d H1.
+  induction ies as [|x ies IH]; intros d H1 H2.
   - destruct d; reflexivity.
   - cbn [flat_map]. rewrite ofold_app. rewrite !selq_cons in *.
     destruct x; cbn [bar_out h_delay h_count o2l app map] in *;
       try (rewrite ofold_nil; cbn [bind]; apply IH; assumption).
-    + rewrite ofold_single. rd_all3. rewrite IH by assumption. reflexivity.
+    + cbn [forallb] in H2. apply andb_prop in H2. destruct H2 as [Hn H2]. apply andb_prop in Hn. destruct Hn as [_ Hn].
+      apply N.ltb_lt in Hn. remember (ns / 50000000) as n eqn:En.
+      rewrite ofold_single. rd_all3. rewrite IH by assumption. reflexivity.
     + cbn [forallb] in H1. apply andb_prop in H1. destruct H1 as [Hv H1]. apply N.ltb_lt in Hv.
       assert (Hv' : v < 65536) by lia.
       rewrite ofold_single. rd_all3. rewrite IH by assumption. reflexivity.
@@ -505,39 +507,32 @@ Qed.
 
 Definition bar_op (create : bool) := if create then create_bar else update_bar.
 
-(* decoded BAR of the model in general: everything is the IE's, except the delay *)
 Lemma dec_bar_request link seid ies :
   link < 4294967296 -> seid < 18446744073709551616 -> wf_bar ies = true ->
-  ref_decode_bar (bar_envelope link seid (lastn 0 (selq h_barid ies)) (flat_map bar_out ies)) =
-  Some {| b_link := Some link; b_id := theq h_barid ies; b_seid := Some seid;
-          b_delay := option_map (fun ns => ns mod 256) (theq h_delay ies); b_count := theq h_count ies |}.
+  ref_decode_bar (bar_envelope link seid (lastn 0 (selq h_barid ies)) (flat_map bar_out ies)) = Some (spec_bar link seid ies).
 Proof.
   intros Hl Hs W. apply wf_bar_inv in W. destruct W as (I1 & D1 & C1 & I2 & C2 & D2 & NB).
   destruct (single_id _ _ I1 I2) as (v & Ev & Hv).
   unfold ref_decode_bar, bar_envelope. rewrite Ev. cbn [lastn fold_left].
   rd_all3. rewrite ofold_fold. rewrite dec_bar_part by assumption.
-  cbn [b_link b_id b_seid b_delay b_count]. unfold theq. rewrite Ev.
+  cbn [b_link b_id b_seid b_delay b_count]. unfold spec_bar, theq. rewrite Ev.
   rewrite (lastor_le1 _ C1), (lastor_map_le1 _ _ D1). reflexivity.
 Qed.
 
-Theorem bar_roundtrip_partial create link seid ies :
-  link < 4294967296 -> seid < 18446744073709551616 -> wf_bar_nodelay ies = true ->
+Theorem bar_roundtrip create link seid ies :
+  link < 4294967296 -> seid < 18446744073709551616 -> wf_bar ies = true ->
   exists id attrs,
     bar_op create link seid ies = Ok (nl_CMD_ADD_BAR, op_flags create, (seid, id), attrs) /\
     ref_decode_req nl_CMD_ADD_BAR ref_decode_bar nl_CMD_ADD_BAR (op_flags create) attrs = Some (create, spec_bar link seid ies).
 Proof.
-  intros Hl Hs W. unfold wf_bar_nodelay in W. apply andb_prop in W. destruct W as [W Z].
-  pose proof (wf_bar_inv _ W) as (I1 & D1 & C1 & I2 & C2 & D2 & NB).
-  assert (ED : option_map (fun ns => ns mod 256) (theq h_delay ies) = option_map (fun ns => ns / 50000000) (theq h_delay ies)).
-  { unfold theq. destruct (selq h_delay ies) as [|n l]; [reflexivity|]. cbn [forallb] in Z. apply andb_prop in Z.
-    destruct Z as [Z _]. apply N.eqb_eq in Z. subst n. reflexivity. }
+  intros Hl Hs W. pose proof (wf_bar_inv _ W) as (I1 & D1 & C1 & I2 & C2 & D2 & NB).
   unfold bar_op, op_flags, create_bar, update_bar.
   destruct create; rewrite bar_fold by assumption; cbn [app]; eexists; eexists; (split; [reflexivity|]);
     unfold ref_decode_req; rewrite N.eqb_refl.
   - replace (op_of_flags create_flags) with (Some true) by reflexivity. cbn [bind].
-    rewrite (dec_bar_request link seid ies Hl Hs W), ED. reflexivity.
+    rewrite (dec_bar_request link seid ies Hl Hs W). reflexivity.
   - replace (op_of_flags update_flags) with (Some false) by reflexivity. cbn [bind].
-    rewrite (dec_bar_request link seid ies Hl Hs W), ED. reflexivity.
+    rewrite (dec_bar_request link seid ies Hl Hs W). reflexivity.
 Qed.
 
 Definition decoded3 {D} (cmd0 : N) (dec : list attr -> option D) (r : result request) : option D :=
@@ -546,21 +541,13 @@ Definition decoded3 {D} (cmd0 : N) (dec : list attr -> option D) (r : result req
   | Err => None
   end.
 
-(* finding: Create BAR {BAR ID 1, Downlink Data Notification Delay 3 (= 150 ms)} reaches gtp5g with delay 128 *)
-Definition bar_delay_witness : list qie := [QBarId 1; QDelay 150000000].
-Theorem bar_delay_refuted :
-  exists link seid ies,
-    link < 4294967296 /\ seid < 18446744073709551616 /\ wf_bar ies = true /\
-    decoded3 nl_CMD_ADD_BAR ref_decode_bar (create_bar link seid ies) <> Some (spec_bar link seid ies).
-Proof.
-  exists 7, 1, bar_delay_witness. repeat split; try reflexivity. vm_compute. discriminate.
-Qed.
-Example bar_delay_witness_decoded :
-  option_map b_delay (decoded3 nl_CMD_ADD_BAR ref_decode_bar (create_bar 7 1 bar_delay_witness)) = Some (Some 128)
-  /\ b_delay (spec_bar 7 1 bar_delay_witness) = Some 3.
+(* the behaviour before the repair (go-upf 08f4372): the Duration itself was cast to uint8, so the attribute carried the low
+   octet of n * 50 000 000: 0 when n is even, 128 when n is odd.  Kept as a record of what the check found. *)
+Definition bar_delay_legacy_attr (ns : N) : attr := A nl_BAR_DOWNLINK_DATA_NOTIFICATION_DELAY (V8 ns).
+Example bar_delay_legacy_refuted :
+  option_map b_delay (ofold dec_bar_step [bar_delay_legacy_attr (3 * 50000000)] bar0) = Some (Some 128) /\
+  option_map b_delay (ofold dec_bar_step (bar_out (QDelay (3 * 50000000))) bar0) = Some (Some 3).
 Proof. split; vm_compute; reflexivity. Qed.
-
-(* every delay other than 0 arrives wrong: the low octet of n * 50 000 000 is 0 (n even) or 128 (n odd) *)
 Lemma bar_delay_low_octet n : (n * 50000000) mod 256 = if N.even n then 0 else 128.
 Proof.
   replace (n * 50000000) with (n * 128 + (n * 195312) * 256) by lia.
@@ -697,21 +684,19 @@ Proof.
   auto.
 Qed.
 
-Lemma wf_bar_perm l l' : Permutation l l' -> wf_bar_nodelay l = wf_bar_nodelay l'.
+Lemma wf_bar_perm l l' : Permutation l l' -> wf_bar l = wf_bar l'.
 Proof.
-  intros P. unfold wf_bar_nodelay, wf_bar, all_lt.
+  intros P. unfold wf_bar, all_lt.
   rewrite (eq1_perm _ _ (selq_perm h_barid _ _ P)), (le1_perm _ _ (selq_perm h_delay _ _ P)), (le1_perm _ _ (selq_perm h_count _ _ P)),
     (forallb_perm _ _ _ (selq_perm h_barid _ _ P)), (forallb_perm _ _ _ (selq_perm h_count _ _ P)),
-    (forallb_perm (fun ns => (ns mod 50000000 =? 0) && (ns / 50000000 <? 256)) _ _ (selq_perm h_delay _ _ P)),
-    (forallb_perm (fun ns => ns =? 0) _ _ (selq_perm h_delay _ _ P)), (isnil_perm _ _ (selq_perm h_bad _ _ P)).
+    (forallb_perm _ _ _ (selq_perm h_delay _ _ P)), (isnil_perm _ _ (selq_perm h_bad _ _ P)).
   reflexivity.
 Qed.
 
-Theorem spec_bar_perm link seid l l' : Permutation l l' -> wf_bar_nodelay l = true ->
-  wf_bar_nodelay l' = true /\ spec_bar link seid l = spec_bar link seid l'.
+Theorem spec_bar_perm link seid l l' : Permutation l l' -> wf_bar l = true ->
+  wf_bar l' = true /\ spec_bar link seid l = spec_bar link seid l'.
 Proof.
   intros P W. split; [rewrite <- (wf_bar_perm _ _ P); exact W|].
-  unfold wf_bar_nodelay in W. apply andb_prop in W. destruct W as [W _].
   apply wf_bar_inv in W. destruct W as (I1 & D1 & C1 & _).
   unfold spec_bar.
   rewrite <- (theq_perm h_barid _ _ P (eq1_le1 _ I1)), <- (theq_perm h_delay _ _ P D1), <- (theq_perm h_count _ _ P C1).
@@ -757,14 +742,14 @@ Proof.
   cbn [decoded3]. rewrite D1, D2, E. auto.
 Qed.
 
-Theorem bar_order_free_partial create link seid ies ies' :
-  link < 4294967296 -> seid < 18446744073709551616 -> wf_bar_nodelay ies = true -> Permutation ies ies' ->
+Theorem bar_order_free create link seid ies ies' :
+  link < 4294967296 -> seid < 18446744073709551616 -> wf_bar ies = true -> Permutation ies ies' ->
   exists d, decoded3 nl_CMD_ADD_BAR ref_decode_bar (bar_op create link seid ies) = Some d /\
             decoded3 nl_CMD_ADD_BAR ref_decode_bar (bar_op create link seid ies') = Some d.
 Proof.
   intros Hl Hs W P. destruct (spec_bar_perm link seid _ _ P W) as [W' E].
-  destruct (bar_roundtrip_partial create link seid ies Hl Hs W) as (i1 & a1 & E1 & D1).
-  destruct (bar_roundtrip_partial create link seid ies' Hl Hs W') as (i2 & a2 & E2 & D2).
+  destruct (bar_roundtrip create link seid ies Hl Hs W) as (i1 & a1 & E1 & D1).
+  destruct (bar_roundtrip create link seid ies' Hl Hs W') as (i2 & a2 & E2 & D2).
   exists (spec_bar link seid ies). rewrite E1, E2. cbn [decoded3]. rewrite D1, D2, E. auto.
 Qed.
 
@@ -815,13 +800,13 @@ Proof.
     unfold urr_req_ok. rewrite D. cbn [Bool.eqb]. apply durr_eqb_refl.
 Qed.
 
-Theorem monitor_accepts_bar_partial create link seid ies :
-  link < 4294967296 -> seid < 18446744073709551616 -> wf_bar_nodelay ies = true ->
+Theorem monitor_accepts_bar create link seid ies :
+  link < 4294967296 -> seid < 18446744073709551616 -> wf_bar ies = true ->
   match bar_op create link seid ies with
   | Ok (cmd, fl, _, attrs) => bar_req_ok create link seid ies cmd fl attrs = true
   | Err => False
   end.
 Proof.
-  intros Hl Hs W. destruct (bar_roundtrip_partial create link seid ies Hl Hs W) as (id & attrs & E & D). rewrite E.
+  intros Hl Hs W. destruct (bar_roundtrip create link seid ies Hl Hs W) as (id & attrs & E & D). rewrite E.
   unfold bar_req_ok. rewrite D. rewrite Bool.eqb_reflx. apply dbar_eqb_refl.
 Qed.
